@@ -112,7 +112,7 @@ def r1_sequencing_sound_combination(ctx):
     ctx.ob("C02.R1", f"{GEN}::_chain_py_ast::hoists earlier nodes before later siblings' statements", GEN, ch.lineno, ok, why,
            witness="[(+ (t 1) (if (t 2) (t 3) 0))] evaluated 2, 3, 1")
     # ... and the combinator itself, evaluated (own interpreter, modelled AST nodes) on every sibling
-    # list of length 2 and 3 over {constant, call} values x {no statements, an expression statement,
+    # list of length 2 and 3 over {constant, call, bare name} values x {no statements, an expression statement,
     # a function definition, both}: the trace of what runs -- each sibling's statements, then its
     # value -- must be in source order.  A `def` statement counts like any other: executing it
     # evaluates its decorators, default values and annotations.
@@ -142,7 +142,9 @@ def r1_sequencing_sound_combination(ctx):
     n_cases = 0
     try:
         for n_sib in (2, 3):
-            for combo in _it.product(_it.product(("Constant", "Call"), sorted(DEPS)), repeat=n_sib):
+            # a bare name is a *read*: of a local, or of the module global a direct-linked Var compiles
+            # to -- a later sibling's statements can (re)def it, so it is sequenced like a call
+            for combo in _it.product(_it.product(("Constant", "Call", "Name"), sorted(DEPS)), repeat=n_sib):
                 n_cases += 1
                 sibs, own = [], {}
                 for i, (nk, dk) in enumerate(combo):
@@ -169,7 +171,7 @@ def r1_sequencing_sound_combination(ctx):
                 const = {i for i, (nk, _dk) in enumerate(combo) if nk == "Constant"}
                 norm = lambda tr: [e for e in tr if not (e[0] == "value" and e[1] in const)]
                 if norm(trace) != norm(want) and bad_order is None:
-                    descr = ", ".join(f"{'a constant' if nk == 'Constant' else 'a call'} with {dk.replace('none', 'no')} statement(s)" for nk, dk in combo)
+                    descr = ", ".join(f"{ {'Constant': 'a constant', 'Call': 'a call', 'Name': 'a bare name (a local or a direct-linked Var)'}[nk]} with {dk.replace('none', 'no')} statement(s)" for nk, dk in combo)
                     bad_order = f"for the siblings ({descr}) the generated code runs {norm(trace)}, source order is {norm(want)}"
     except Unsupported as e:
         raise AnalysisError(f"_chain_py_ast outside the interpretable fragment: {e}")
